@@ -27,6 +27,18 @@ import (
 // every attribute it exposes is the schema's and holds a value of exactly the
 // declared Go type (or nil when nullable), relationships hold string / []string.
 // full: the resource must expose every field of the schema type.
+// typeNamed looks a type up in the schema by its exact name (the harness' own
+// reading of "exists in the schema", not the library's lookup functions).
+func typeNamed(schema *jsonapi.Schema, name string) (jsonapi.Type, bool) {
+	for i := range schema.Types {
+		if schema.Types[i].Name == name {
+			return schema.Types[i], true
+		}
+	}
+
+	return jsonapi.Type{}, false
+}
+
 func conforms(schema *jsonapi.Schema, res jsonapi.Resource, full bool) string {
 	var msg string
 
@@ -37,12 +49,12 @@ func conforms(schema *jsonapi.Schema, res jsonapi.Resource, full bool) string {
 		}
 
 		name := res.GetType().Name
-		if !schema.HasType(name) {
+
+		styp, defined := typeNamed(schema, name)
+		if !defined {
 			msg = fmt.Sprintf("resource of type %q, which is not in the schema", name)
 			return
 		}
-
-		styp := schema.GetType(name)
 
 		if _, ok := res.Get("id").(string); !ok {
 			msg = fmt.Sprintf("id is a %T", res.Get("id"))
@@ -326,7 +338,7 @@ func runEntryPoints(schema *jsonapi.Schema, input []byte, target string) (violat
 
 			if err != nil && id != (jsonapi.Identifier{}) {
 				fail("UnmarshalIdentifier", fmt.Sprintf("both an error and an identifier %+v", id))
-			} else if err == nil && (id.ID == "" || !schema.HasType(id.Type)) {
+			} else if _, defined := typeNamed(schema, id.Type); err == nil && (id.ID == "" || !defined) {
 				fail("UnmarshalIdentifier", fmt.Sprintf("accepted identifier %+v", id))
 			}
 		}
@@ -348,7 +360,7 @@ func runEntryPoints(schema *jsonapi.Schema, input []byte, target string) (violat
 				fail("UnmarshalIdentifiers", "both an error and identifiers")
 			} else if err == nil {
 				for _, id := range ids {
-					if id.ID == "" || !schema.HasType(id.Type) {
+					if _, defined := typeNamed(schema, id.Type); id.ID == "" || !defined {
 						fail("UnmarshalIdentifiers", fmt.Sprintf("accepted identifier %+v", id))
 					}
 				}
